@@ -473,6 +473,34 @@ LOCK_SPELLINGS = ("plain", "trailing slash", "relative", "relative with ./ and s
                   "symlink with slash")
 
 
+class _StillWaiting(BaseException):
+    """the second holder had not given up after the limit (the documented lock timeout is one second)"""
+
+
+class give_up_limit:
+    """with give_up_limit(15): ...  - raises _StillWaiting inside the block after that many seconds (main thread only)"""
+    def __init__(self, seconds):
+        self.seconds = seconds
+
+    def _fire(self, *_):
+        raise _StillWaiting(f"still waiting for the lock after {self.seconds} s")
+
+    def __enter__(self):
+        import signal
+        self._main = threading.current_thread() is threading.main_thread()
+        if self._main:
+            self._old = signal.signal(signal.SIGALRM, self._fire)
+            signal.setitimer(signal.ITIMER_REAL, self.seconds)
+        return self
+
+    def __exit__(self, *exc):
+        import signal
+        if self._main:
+            signal.setitimer(signal.ITIMER_REAL, 0)
+            signal.signal(signal.SIGALRM, self._old)
+        return False
+
+
 def lock_spell(d, name, base):
     """an equivalent spelling of the existing directory d (POSIX); the relative ones are relative to base (the working directory of
     both holders); the symlink ones name the link <d>_link -> d"""
@@ -532,11 +560,12 @@ def lock_spelling_probe(w, env, case):
             res["asker_waited_s"] = round(time.time() - t0, 2)
             results[(h["s1"], s2)] = res
 
-        threads = [threading.Thread(target=ask, args=(h, s2)) for h in holders for s2 in LOCK_SPELLINGS]
+        threads = [threading.Thread(target=ask, args=(h, s2), daemon=True) for h in holders for s2 in LOCK_SPELLINGS]
         for th in threads:
             th.start()
+        deadline = time.time() + 30       # all askers together: an asker that has not given up by then is recorded as "no answer"
         for th in threads:
-            th.join(30)
+            th.join(max(0.0, deadline - time.time()))
         for h in holders:
             os.write(h["fds"][3], b"1")
             _, status = os.waitpid(h["pid"], 0)
@@ -600,8 +629,9 @@ def part_lock(w):
                 with CacheLock(d, write_time=write_time, time_threshold=0):
                     t0 = time.time()
                     try:
-                        with CacheLock(d, write_time=write_time, time_threshold=0):
-                            both_inside = True
+                        with give_up_limit(15):
+                            with CacheLock(d, write_time=write_time, time_threshold=0):
+                                both_inside = True
                         second = "entered"
                     except CacheException:
                         second = "CacheException"
@@ -641,8 +671,9 @@ def part_lock(w):
         inside.wait(20)
         t0 = time.time()
         try:
-            with CacheLock(d, write_time=False):
-                res["second"] = "entered"
+            with give_up_limit(15):
+                with CacheLock(d, write_time=False):
+                    res["second"] = "entered"
         except CacheException:
             res["second"] = "CacheException"
         except BaseException as e:
@@ -686,8 +717,9 @@ def part_lock(w):
         res = {"child_inside": got == b"1"}
         t0 = time.time()
         try:
-            with CacheLock(d, write_time=False):
-                res["parent"] = "entered"
+            with give_up_limit(15):
+                with CacheLock(d, write_time=False):
+                    res["parent"] = "entered"
         except CacheException:
             res["parent"] = "CacheException"
         except BaseException as e:
@@ -709,7 +741,7 @@ def part_lock(w):
         inp = {"kind": "lock", "probe": "cache_local_versions while another holder is inside"}
         case(inp)
         try:
-            with CacheLock(d, write_time=False):
+            with CacheLock(d, write_time=False), give_up_limit(20):
                 r = hc.cache_local_versions(d)
                 copied = [f for f in os.listdir(d) if version_of(f)]
             obs = {"returned": r, "schema_files_copied_while_locked": len(copied)}
